@@ -336,7 +336,7 @@ func runC11(c *Ctx) {
 		}
 		c.Eval(true, "corpus")
 	})
-	c.Cases("seq", c.N(4000, 60000), func(r *Rng, i int) {
+	c.Cases("seq", c.N(4000, 25000), func(r *Rng, i int) {
 		limit := c11Limits[r.Intn(len(c11Limits))]
 		n := 4 + r.Intn(40)
 		if r.Chance(5) {
